@@ -47,6 +47,25 @@ func PlusContents() []Content {
 		b.Add(RootFile, P(simpleObj("ph"), "definitions", "propsHolder"))
 	})
 	ptrTo("nonSchema", "#/info", nil)
+	ptrTo("sharedResponseObject", "#/responses/wholeResp", func(b *BundleSpec) {
+		b.Add(RootFile, P(J{"description": "a response used as a schema", "schema": simpleObj("wr")}, "responses", "wholeResp"))
+	})
+	ptrTo("sharedParameterObject", "#/parameters/wholeParam", func(b *BundleSpec) {
+		b.Add(RootFile, P(J{"name": "wp", "in": "query", "type": "string"}, "parameters", "wholeParam"))
+	})
+	ptrTo("absoluteSelfFile", "/vfs/root.json#/definitions/absTarget", func(b *BundleSpec) {
+		b.Add(RootFile, P(simpleObj("abs"), "definitions", "absTarget"))
+	})
+	ptrTo("absoluteAuxFile", "/vfs/sub/a.json#/definitions/absAux", func(b *BundleSpec) {
+		b.Add(AuxA, P(simpleObj("absAux"), "definitions", "absAux"))
+	})
+	ptrTo("fileSchemeSelf", "file:///vfs/root.json#/definitions/fsTarget", func(b *BundleSpec) {
+		b.Add(RootFile, P(simpleObj("fs"), "definitions", "fsTarget"))
+	})
+	ptrTo("nestedCollidingImports", AuxA+"#/definitions/thing", func(b *BundleSpec) {
+		b.Add(RootFile, P(simpleObj("rootThing"), "definitions", "thing"), P(simpleObj("rootOther"), "definitions", "other"))
+		b.Add(AuxA, P(J{"type": "object", "properties": J{"o": J{"$ref": "#/definitions/other"}, "o2": J{"$ref": "#/definitions/other"}}}, "definitions", "thing"), P(simpleObj("auxOther"), "definitions", "other"))
+	})
 	ptrTo("wholeRoot", "#", nil)
 	ptrTo("wholeRootSlash", "#/", nil)
 	ptrTo("definitionsSection", "#/definitions", func(b *BundleSpec) { b.Add(RootFile, P(simpleObj("any"), "definitions", "anyDef")) })
